@@ -212,6 +212,20 @@ func expandC07(t *testing.T, seed uint64, tier string) []*core.Plan {
 			p.Items = append(p.Items, core.Item{K: "settle"})
 		}
 	}
+	if seed%13 == 8 {
+		// deaf resume: a publisher that has two QoS 2 handshakes open comes back
+		// on a new connection, fills the broker's acknowledgement queue with
+		// requests while it reads nothing, then releases the old handshakes:
+		// every PUBREL must still get its PUBCOMP once it reads again
+		p.Items = nil
+		p.SetKnob("deafresume", 1)
+		p.SetKnob("ackmode", r.Pick(0, 0, 1))
+		p.SetKnob("defer", 1)
+		p.SetKnob("parpub", r.Pick(1, 2, 3))
+		p.SetKnob("parsub", r.Pick(1, 2))
+		p.SetKnob("open", r.Pick(2, 3))
+		return []*core.Plan{p}
+	}
 	if seed%5 == 3 {
 		// half-open takeover: backend calls are held at the simulator's gate and
 		// released in seeded order while the publisher comes back on a second
@@ -284,6 +298,9 @@ func runC07(t *testing.T, p *core.Plan) *core.Result {
 	cfg.Chunk = p.Knob("chunk", 0)
 	cfg.AckMode = p.Knob("ackmode", 0)
 	cfg.ParPublishes = p.Knob("parpub", 10)
+	if ps := p.Knob("parsub", 0); ps > 0 {
+		cfg.ParSubscribes = ps
+	}
 	cfg.GateBackend = p.Knob("gate", 0) == 1
 	var w *World
 	ptxt := core.Bubble(t, p.Seed, p.Yield, func() {
@@ -302,6 +319,63 @@ func runC07(t *testing.T, p *core.Plan) *core.Result {
 		pb.connect(false)
 		armFault(pb.cur, p.Knob("fmode", 0), p.Knob("fk", 0))
 		first := pb.cur
+		if p.Knob("deafresume", 0) == 1 {
+			// 1. open handshakes: PUBLISH + PUBREC, the PUBRELs are withheld
+			nOpen := p.Knob("open", 2)
+			for i := 1; i <= nOpen; i++ {
+				pb.publish(Topics[i%len(Topics)], 2, i)
+			}
+			w.Settle()
+			pb.absorb()
+			// 2. the connection is lost; a new one is set up (CONNECT only)
+			pb.cur.Drop()
+			w.Settle()
+			pb.cur.Pending = nil
+			pb.connect(false)
+			w.Settle()
+			cur := pb.cur
+			// 3. from now on the publisher reads nothing (tiny socket buffer)
+			cur.Link.B2A.Cap = 2 // less than one acknowledgement
+			cur.Stalled = true
+			// 4. one request whose acknowledgement is buffered; the delayed flush
+			// then runs into the full socket buffer and stays there
+			tag := 100
+			{
+				f := &pubFlow{id: 19, tag: tag, qos: 1, topic: Topics[0]}
+				pb.flows = append(pb.flows, f)
+				pb.sendPublish(f, false)
+				w.Settle()
+			}
+			// requests that take every token: the acker gets stuck behind the
+			// flush with the first acknowledgement, the others fill the queue
+			for i := 0; i < cfg.ParPublishes; i++ {
+				tag++
+				f := &pubFlow{id: packet.ID(20 + i), tag: tag, qos: 1, topic: Topics[0]}
+				pb.flows = append(pb.flows, f)
+				pb.sendPublish(f, false)
+			}
+			for i := 0; i < cfg.ParSubscribes; i++ {
+				sp := packet.NewSubscribe()
+				sp.ID = packet.ID(40 + i)
+				sp.Subscriptions = []packet.Subscription{{Topic: "zz/x", QOS: 0}}
+				cur.Send(sp)
+			}
+			w.Settle()
+			// 5. the old handshakes are released
+			for _, f := range pb.flows {
+				if f.qos == 2 && f.gotRec && !f.done {
+					r := packet.NewPubrel()
+					r.ID = f.id
+					cur.Send(r)
+				}
+			}
+			w.Settle()
+			// 6. the publisher reads again
+			cur.Stalled = false
+			w.Settle()
+			pb.absorb()
+			res.Count("deaf_resumes", 1)
+		}
 		armed2 := false
 		step := func() {
 			w.Settle()
